@@ -37,9 +37,26 @@ def is_chain_node(c, z):
 MANAGED = ("Sort", "Projection", "Deduplication", "Slice")
 
 
+udeep = z3.Function("no_managed_operation_through_calculations_and_selections", smt.Ref, smt.BoolS)
+
+
 def unmanaged_top(c, z):
-    """z has none of the operations a Select manages on top."""
-    return z3.Or(z3.Not(is_unary(c, z)), z3.And(*[smt.typ(u_op(c, z)) != cid(c, n) for n in MANAGED]))
+    """None of the operations a Select manages is reachable from z through calculation / selection nodes (in
+    particular: none on top).  Recursive, so that a selection merged into an existing selection -- which re-inserts
+    the merged operation one level further up -- keeps it."""
+    return udeep(z)
+
+
+def udeep_axioms(ex):
+    class _C:
+        pass
+    c = _C()
+    c.ex = ex
+    r = z3.Const("r", smt.Ref)
+    op = u_op(c, r)
+    through = z3.Or(smt.typ(op) == cid(c, "Calculation"), smt.typ(op) == cid(c, "Selection"))
+    managed = z3.Or(*[smt.typ(op) == cid(c, n) for n in MANAGED])
+    return [z3.ForAll([r], udeep(r) == z3.If(is_unary(c, r), z3.And(z3.Not(managed), z3.Implies(through, udeep(u_t(c, r)))), z3.BoolVal(True)), patterns=[udeep(r)])]
 
 
 def noop(c, op):
@@ -87,6 +104,7 @@ def sel_struct_ok(c, o):
 
 def register(reg):
     reg.load("c20")
+    reg.global_axioms.append(udeep_axioms)
     P = ("C17",)
     TRel = TRefT(reg_cls(reg, "BaseRelation"))
     TSel = TRefT(reg_cls(reg, "Select"))
@@ -114,9 +132,8 @@ def register(reg):
                                         z3.Or(z3.Not(is_unary(c, c.target.z)), z3.Not(mergeable(c, c.self.z, u_op(c, c.target.z))))),
                                  z3.And(is_unary(c, c.result.z), u_op(c, c.result.z) == c.self.z, u_t(c, c.result.z) == c.target.z))))
     sel_true = lambda c: z3.And(smt.typ(c.self.z) == cid(c, "Selection"), triv(c)(A(c, "Selection", "predicate")(c.self.z)) == smt.TRI_T)  # noqa: E731
-    k.ens("calculations-and-selections-end-up-on-top",
-          lambda c: B(z3.Implies(z3.Or(smt.typ(c.self.z) == cid(c, "Calculation"), z3.And(smt.typ(c.self.z) == cid(c, "Selection"), z3.Not(sel_true(c)))),
-                                 z3.And(is_unary(c, c.result.z), smt.typ(u_op(c, c.result.z)) == smt.typ(c.self.z)))))
+    k.ens("calculations-and-selections-keep-managed-operations-out",
+          lambda c: B(z3.Implies(z3.And(z3.Or(smt.typ(c.self.z) == cid(c, "Calculation"), smt.typ(c.self.z) == cid(c, "Selection")), udeep(c.target.z)), udeep(c.result.z))))
     k.ens("a-trivially-true-selection-returns-the-target", lambda c: B(z3.Implies(sel_true(c), c.result.z == c.target.z)))
     kb = reg.contracts["_binary_operation:BinaryOperation._finish_apply"]
     kb.ens("result-is-an-operand-or-a-binary-node",
